@@ -51,6 +51,8 @@ TEMPLATES = [
     ("in-plus-group", lambda R: seq(grp("plus", seq(R, A)), B)),
     ("in-group-later-alt", lambda R: seq(grp("once", alt(seq(A, B), R)), L)),
     ("in-lookahead-group", lambda R: seq(look(False, seq(RNC(R), A)), A)),
+    ("in-lookahead-group-captured", lambda R: seq(look(False, seq(R, A)), A)),
+    ("in-negative-lookahead-group-captured", lambda R: seq(look(True, seq(R, A)), B)),
     ("after-plus", lambda R: seq(grp("plus", A), R)),
     ("after-nonempty-opt", lambda R: seq(grp("nonempty", grp("opt", A)), R)),
     ("after-neg", lambda R: seq({"op": "neg", "kid": A}, R)),
